@@ -128,3 +128,191 @@ def collect(facts, name, init=None):
 def pair_of(state):
     """(self variants, rhs variants) of a snapshot"""
     return tuple(state.get("self", ["*"])), tuple(state.get("rhs", ["*"]))
+
+
+VARIANTS = ("Bytes", "Regex", "Integer", "Float", "Boolean", "Timestamp", "Object", "Array", "Null")
+MISMATCH = {"Add", "Sub", "Mul", "Div", "Rem", "Ge", "Gt", "Le", "Lt", "And", "Or", "Merge", "DivideByZero", "Expected", "Coerce"}
+
+
+def err_pairs(facts, mname):
+    """(self variant, rhs variant) pairs for which the method can construct a type-mismatch / zero-division ValueError
+    (ValueError::NanFloat, built in float_result, is deliberately not counted: see DESIGN C02).
+    Returns (set of pairs, list of error sites)."""
+    name = method(mname)
+    b = facts.body(name)
+    tup = None
+    for l, ds in b.defs().items():
+        if len(ds) == 1 and ds[0][0] == "stmt" and ds[0][3]["rv"]["k"] == "agg" and ds[0][3]["rv"].get("adt") == "(tuple)":
+            if b.local_ty(l).count(VALUE) == 2:
+                tup = l
+    vf = VarFlow(facts, b, extra_locals=([tup] if tup is not None else []) + [1, 2])
+    pairs = set()
+    sites = []
+
+    def sides(st):
+        def pick(prefixes):
+            for k, v in st.items():
+                if k in prefixes:
+                    vs = set(v) - {MOVED}
+                    if vs:
+                        return vs
+            return None
+        s = pick(["_%d.0" % tup] if tup is not None else []) or pick(["_1", "(*_1)"])
+        r = pick(["_%d.1" % tup] if tup is not None else []) or pick(["_2", "(*_2)"])
+        return s, r
+
+    def on_stmt(bb, si, s, st):
+        rv = s["rv"]
+        if rv["k"] == "agg" and (rv.get("adt") or "").endswith("value::error::ValueError") or \
+                (rv["k"] == "agg" and (rv.get("adt") or "").endswith("::ValueError")):
+            if rv.get("variant") not in MISMATCH:
+                return
+            sv, rvv = sides(st)
+            sv = sv or set(VARIANTS)
+            rvv = rvv or set(VARIANTS)
+            for a in sv:
+                for c in rvv:
+                    if a in VARIANTS and c in VARIANTS:
+                        pairs.add((a, c))
+            sites.append({"variant": rv.get("variant"), "line": s.get("ln"), "self": sorted(sv), "rhs": sorted(rvv)})
+    COERCE = {"try_bytes": {"Bytes"}, "try_bytes_utf8_lossy": {"Bytes"}, "try_timestamp": {"Timestamp"}, "try_integer": {"Integer"},
+              "try_float": {"Float"}, "try_boolean": {"Boolean"}, "try_object": {"Object"}, "try_array": {"Array"}, "try_regex": {"Regex"},
+              "try_null": {"Null"}, "try_into_f64": {"Integer", "Float"}, "try_into_i64": {"Integer", "Float"}}
+
+    def on_term(bb, t, st):
+        if t["k"] != "call":
+            return
+        m = re.search(r"VrlValueConvert>::(try_\w+)$", b.callee(t))
+        if not m:
+            return
+        accept = COERCE.get(m.group(1))
+        side = operand_origin(b, t["args"][0])[0] if t["args"] else "other"
+        sv, rvv = sides(st)
+        sv = sv or set(VARIANTS)
+        rvv = rvv or set(VARIANTS)
+        if accept is None or side not in ("self", "rhs"):
+            bad_s, bad_r = sv, rvv          # unknown coercion: every pair of this state may fail
+        elif side == "self":
+            bad_s, bad_r = sv - accept, rvv
+        else:
+            bad_s, bad_r = sv, rvv - accept
+        for a in bad_s:
+            for c in bad_r:
+                if a in VARIANTS and c in VARIANTS:
+                    pairs.add((a, c))
+        sites.append({"variant": "coercion %s of %s" % (m.group(1), side), "line": t["ln"], "self": sorted(bad_s), "rhs": sorted(bad_r)})
+    vf.run(on_stmt=on_stmt, on_term=on_term)
+    return pairs, sites
+
+
+INTO_VARIANT = [(r"^(i64|i32|u32|isize|usize|u8|u16|i16|i8|u64)$", "Integer"), (r"^bool$", "Boolean"), (r"^bytes::Bytes|^bytes::BytesMut|^&?str$|String$|Cow<", "Bytes"),
+                (r"NotNan|^f64$", "Float"), (r"BTreeMap", "Object"), (r"Vec<", "Array"), (r"DateTime", "Timestamp"), (r"Regex", "Regex")]
+
+
+def result_variants(facts, mname):
+    """{(self variant, rhs variant): set of Value variants the method can return in Ok} ('?' in a set = a producer the rule cannot classify)."""
+    name = method(mname)
+    b = facts.body(name)
+    tup = None
+    for l, ds in b.defs().items():
+        if len(ds) == 1 and ds[0][0] == "stmt" and ds[0][3]["rv"]["k"] == "agg" and ds[0][3]["rv"].get("adt") == "(tuple)":
+            if b.local_ty(l).count(VALUE) == 2:
+                tup = l
+    # locals that carry the returned value: payload of `_0 = Ok(..)`, closed backwards over plain moves
+    carry = set()
+    direct_calls = []      # calls that define _0 itself (e.g. `float_result(..)` returned directly)
+    for kind, bb, si, x in b.defs().get(0, []):
+        if kind == "stmt" and x["rv"]["k"] == "agg" and x["rv"].get("variant") == "Ok":
+            l = op_local(x["rv"]["ops"][0])
+            if l is not None:
+                carry.add(l)
+        elif kind == "call":
+            direct_calls.append((bb, x))
+    grew = True
+    while grew:
+        grew = False
+        for bi, si, s in b.iter_stmts():
+            if s["d"]["l"] in carry and not s["d"].get("p") and s["rv"]["k"] == "use":
+                p = op_place(s["rv"]["op"])
+                if p is not None and not p.get("p") and p["l"] not in carry and not (1 <= p["l"] <= b.argc) and p["l"] != tup:
+                    carry.add(p["l"]); grew = True
+    vf = VarFlow(facts, b, extra_locals=([tup] if tup is not None else []) + [1, 2])
+    out = {}
+
+    def sides(st):
+        def pick(prefixes):
+            for k, v in st.items():
+                if k in prefixes:
+                    vs = set(v) - {MOVED}
+                    if vs:
+                        return vs
+            return None
+        s = pick(["_%d.0" % tup] if tup is not None else []) or pick(["_1", "(*_1)"]) or set(VARIANTS)
+        r = pick(["_%d.1" % tup] if tup is not None else []) or pick(["_2", "(*_2)"]) or set(VARIANTS)
+        return s & set(VARIANTS), r & set(VARIANTS)
+
+    def record(st, variants):
+        sv, rvv = sides(st)
+        for a in sv:
+            for c in rvv:
+                out.setdefault((a, c), set()).update(variants(a, c))
+
+    def classify_call(cal, full):
+        m = re.match(r"^<(.+) as std::convert::Into<value::value::Value>>::into$", full or cal) or \
+            re.match(r"^<value::value::Value as std::convert::From<(.+)>>::from$", full or cal)
+        if m:
+            for rx, v in INTO_VARIANT:
+                if re.search(rx, m.group(1)):
+                    return v
+            return "?"
+        if cal.endswith("arithmetic::float_result"):
+            return "Float"
+        return None
+
+    def on_stmt(bb, si, s, st):
+        if s["d"]["l"] not in carry or s["d"].get("p"):
+            return
+        rv = s["rv"]
+        if rv["k"] == "agg" and (rv.get("adt") or "").endswith("value::value::Value"):
+            v = rv.get("variant")
+            record(st, lambda a, c: {v})
+        elif rv["k"] == "use":
+            p = op_place(rv["op"])
+            if p is None:
+                return
+            if not p.get("p") and p["l"] in carry:
+                return
+            side, variant, casts, _ = operand_origin(b, rv["op"])
+            if side in ("self", "rhs") and not [e for e in p.get("p", []) if isinstance(e, dict) and "v" in e and e["v"] in VARIANTS]:
+                record(st, (lambda a, c: {a}) if side == "self" else (lambda a, c: {c}))
+            else:
+                # payload of a `?` on float_result etc.: find the producing call through Try::branch
+                l = p["l"]
+                res = "?"
+                for _ in range(4):
+                    ds = b.defs().get(l, [])
+                    if len(ds) != 1 or ds[0][0] != "call":
+                        break
+                    cal = b.callee(ds[0][3])
+                    if cal.endswith("as std::ops::Try>::branch"):
+                        l = op_local(ds[0][3]["args"][0])
+                        if l is None:
+                            break
+                        continue
+                    res = classify_call(cal, ds[0][3].get("rfn_full") or ds[0][3].get("fn_full")) or "?"
+                    break
+                record(st, lambda a, c: {res})
+
+    def on_term(bb, t, st):
+        if t["k"] != "call" or t["dest"].get("p"):
+            return
+        d = t["dest"]["l"]
+        cal = b.callee(t)
+        if d in carry:
+            v = classify_call(cal, t.get("rfn_full") or t.get("fn_full")) or "?"
+            record(st, lambda a, c: {v})
+        elif d == 0 and not cal.endswith("from_residual") and "from_residual" not in cal:
+            v = classify_call(cal, t.get("rfn_full") or t.get("fn_full")) or "?"
+            record(st, lambda a, c: {v})
+    vf.run(on_stmt=on_stmt, on_term=on_term)
+    return out
